@@ -17,6 +17,21 @@ from senaite.astm.compat import make_string
 from senaite.astm.compat import unicode
 
 
+def check_digits(field, value, optional=0):
+    """Returns the value if it consists of exactly the digits of the field
+    format (the trailing `optional` digits, i.e. the seconds, may be missing
+    and are filled with zeros) and denotes a valid date/time.
+    """
+    if len(value) == field.digits - optional:
+        value += "0" * optional
+    if len(value) != field.digits or not (value.isascii() and value.isdigit()):
+        raise ValueError("Value %r does not match format %s"
+                         % (value, field.format))
+    # raises a ValueError for invalid dates/times
+    field._get_value(value)
+    return value
+
+
 class Field(object):
     """Base mapping field class.
     """
@@ -131,22 +146,24 @@ class DateField(Field):
     """Mapping field for storing date/time values.
     """
     format = "%Y%m%d"
+    digits = 8
 
     def _get_value(self, value):
         return datetime.datetime.strptime(value, self.format)
 
     def _set_value(self, value):
         if isinstance(value, basestring):
-            value = self._get_value(value)
+            return check_digits(self, make_string(value))
         if not isinstance(value, (datetime.datetime, datetime.date)):
             raise TypeError("Datetime value expected, got %r" % value)
-        return value.strftime(self.format)
+        return value.strftime(self.format).zfill(self.digits)
 
 
 class TimeField(Field):
     """Mapping field for storing times.
     """
     format = "%H%M%S"
+    digits = 6
 
     def _get_value(self, value):
         if isinstance(value, basestring):
@@ -160,7 +177,8 @@ class TimeField(Field):
 
     def _set_value(self, value):
         if isinstance(value, basestring):
-            value = self._get_value(value)
+            value = make_string(value).split(".", 1)[0]  # no microseconds
+            return check_digits(self, value, optional=2)
         if not isinstance(value, (datetime.datetime, datetime.time)):
             raise TypeError("Datetime value expected, got %r" % value)
         if isinstance(value, datetime.datetime):
@@ -172,16 +190,17 @@ class DateTimeField(Field):
     """Mapping field for storing date/time values.
     """
     format = "%Y%m%d%H%M%S"
+    digits = 14
 
     def _get_value(self, value):
         return datetime.datetime.strptime(value, self.format)
 
     def _set_value(self, value):
         if isinstance(value, basestring):
-            value = self._get_value(value)
+            return check_digits(self, make_string(value), optional=2)
         if not isinstance(value, (datetime.datetime, datetime.date)):
             raise TypeError("Datetime value expected, got %r" % value)
-        return value.strftime(self.format)
+        return value.strftime(self.format).zfill(self.digits)
 
 
 class ConstantField(Field):
